@@ -19,7 +19,10 @@ Verdict(o) ==
   LET exp == RefTree(o.toks) IN
   IF "fail" \in DOMAIN o THEN [ok |-> FALSE, why |-> "the parser rejects a well-formed expression: " \o o.fail.stage \o " " \o o.fail.status, exp |-> exp, got |-> <<>>]
   ELSE LET got == RealTree(o.nodes, o.root, Len(o.nodes) + 1) IN
-       IF got = exp THEN [ok |-> TRUE, why |-> "", exp |-> exp, got |-> got]
+       IF o.variant = "aftersep"       \* `7 ; e` : the separator binds loosest, e is its whole right operand
+       THEN (IF Len(got) = 1 /\ got[1].d \in {"Subexpression", "ExpressionSeparator"} /\ got[1].r = exp THEN [ok |-> TRUE, why |-> "", exp |-> exp, got |-> got]
+             ELSE [ok |-> FALSE, why |-> "after a separator the expression parses to a different tree", exp |-> exp, got |-> got])
+       ELSE IF got = exp THEN [ok |-> TRUE, why |-> "", exp |-> exp, got |-> got]
        ELSE [ok |-> FALSE, why |-> IF o.variant = "paren" THEN "the fully parenthesised spelling parses to a different tree" ELSE "the tree is not the one the operator table dictates", exp |-> exp, got |-> got]
 Report == Verdict(Obs[c]).ok \/ PrintT(<<"FAIL", ToJson([c |-> c, src |-> Obs[c].src, variant |-> Obs[c].variant, why |-> Verdict(Obs[c]).why,
                                                        expected |-> Verdict(Obs[c]).exp, got |-> Verdict(Obs[c]).got, kf |-> KF_C02(Obs[c])])>>)
